@@ -112,6 +112,8 @@ pub struct View<'a> {
     pub nthreads: usize,
     /// (thread, pending op kind, name of the call the thread is in or "") for every enabled thread
     pub pend: &'a [(usize, K, String)],
+    /// number of mutexes currently held by some thread
+    pub held: usize,
 }
 
 pub trait Source: Send {
@@ -564,6 +566,7 @@ impl Rt {
             last,
             nthreads: st.th.len(),
             pend: &pend,
+            held: st.held.len(),
         };
         let mut src = st.source.take();
         // a thread that is run alone must finish its call within the bound
@@ -578,6 +581,20 @@ impl Rt {
                 if st.th[t].call_ops > bound {
                     let api = st.th[t].in_call.as_ref().and_then(|c| c["api"].as_str()).unwrap_or("").to_string();
                     st.api.push(json!({"e":"solo","t":t,"api":api,"nops":st.th[t].call_ops,"bound":bound,"done":false}));
+                    st.th[t].solo_mark = None;
+                    s.solo_abort();
+                }
+            }
+            // ... and must not block on a lock that a frozen thread holds
+            if let Some((t, bound)) = s.solo() {
+                let blocked = st.th[t].status == Status::Pending
+                    && !enabled.contains(&t)
+                    && st.th[t].in_call.is_some()
+                    && matches!(st.th[t].pend.map(|p| p.kind), Some(K::Shim(OpKind::MutexLock)));
+                if blocked {
+                    let api = st.th[t].in_call.as_ref().and_then(|c| c["api"].as_str()).unwrap_or("").to_string();
+                    st.api.push(json!({"e":"solo","t":t,"api":api,"nops":st.th[t].call_ops,"bound":bound,"done":false,
+                                       "blocked_on_lock":true}));
                     st.th[t].solo_mark = None;
                     s.solo_abort();
                 }
